@@ -1178,13 +1178,21 @@ class LuaASTEchoWriter(BaseLuaWriter):
                             node, self._tokens[self._pos].code)
                     for t in self._walk(node.fields[i]):
                         yield t
-        # Process a trailing fieldsep, if any.
+        # Process a trailing fieldsep, if any. (It is still inside the braces,
+        # so it is written before the indent level drops.)
+        if not self._args.get('ignore_tokens'):
+            peek = self._pos
+            while (peek < len(self._tokens) and
+                   (isinstance(self._tokens[peek], lexer.TokSpace) or
+                    isinstance(self._tokens[peek], lexer.TokNewline) or
+                    isinstance(self._tokens[peek], lexer.TokComment))):
+                peek += 1
+            if (peek < len(self._tokens) and
+                (self._tokens[peek].matches(lexer.TokSymbol(b',')) or
+                 self._tokens[peek].matches(lexer.TokSymbol(b';')))):
+                yield self._get_text(node, self._tokens[peek].code)
         self._indent -= 1
         yield self._get_code_for_spaces(node)
-        if not self._args.get('ignore_tokens'):
-            if (self._tokens[self._pos].matches(lexer.TokSymbol(b',')) or
-                    self._tokens[self._pos].matches(lexer.TokSymbol(b';'))):
-                yield self._get_text(node, self._tokens[self._pos].code)
         yield self._get_text(node, b'}')
 
     def _walk_FieldExpKey(self, node):
